@@ -361,7 +361,13 @@ class CoseSecOpCtx:
         msg_enc = bytes(result.getfieldval('value'))
         msg_dec = cbor2.loads(msg_enc)
         LOGGER.debug('Received COSE message\n%s', encode_diagnostic(msg_dec))
-        msg_dec[2] = self.tgt_blk.getfieldval('btsd')
+        content = None
+        if isinstance(self.sec_blk.payload, BlockIntegrityBlock):
+            # integrity is checked over what a confidentiality operation recovered
+            content = getattr(self.ctr, 'decrypted', {}).get(self.tgt_blk.block_num)
+        if content is None:
+            content = self.tgt_blk.getfieldval('btsd')
+        msg_dec[2] = content
 
         msg_obj = msg_cls.from_cose_obj(msg_dec, allow_unknown_attributes=False)
         msg_obj.external_aad = self.get_external_aad()
@@ -1140,8 +1146,15 @@ class CoseContext(AbstractContext):
 
         if plaintext is not None:
             LOGGER.info('Verified BCB num %d, target block num %d', secop.sec_blk.block_num, secop.tgt_blk.block_num)
+            if not hasattr(secop.ctr, 'decrypted'):
+                secop.ctr.decrypted = {}
+            secop.ctr.decrypted[secop.tgt_blk.block_num] = plaintext
             if self._config.accept_after_verify:
                 secop.tgt_blk.setfieldval('btsd', plaintext)
+                # the block was dissected from ciphertext
+                secop.tgt_blk.remove_payload()
+                secop.tgt_blk.post_dissect(b'')
+                secop.ctr.reload()
             return None
         else:
             LOGGER.error('Failed to verify BCB num %d, target block num %d', secop.sec_blk.block_num, secop.tgt_blk.block_num)
@@ -1377,6 +1390,16 @@ class Bpsec(AbstractApplication):
         bib_type = BlockIntegrityBlock._overload_fields[CanonicalBlock]['type_code']
         # a copy because accepted blocks are removed
         for bib in tuple(ctr.block_type(bib_type)):
+            plain = getattr(ctr, 'decrypted', {}).get(bib.block_num)
+            if plain is not None and not isinstance(bib.payload, BlockIntegrityBlock):
+                # this BIB travelled encrypted and is not accepted: verify a decrypted copy
+                try:
+                    clear = bib.copy()
+                    clear.remove_payload()
+                    clear.add_payload(BlockIntegrityBlock(plain))
+                    bib = clear
+                except Exception as err:
+                    LOGGER.warning('Undecodable BIB in block num %s: %s', bib.block_num, err)
             if not isinstance(bib.payload, BlockIntegrityBlock):
                 LOGGER.warning('Unintelligible BIB in block num %s', bib.block_num)
                 failure.append(StatusReport.ReasonCode.FAILED_SEC)
